@@ -74,7 +74,7 @@ CLAIMS["C12"] = ("Aggregation and cut-through, proof-level (Verus, extracted tex
     "are a permutation of the given inputs (same for outputs), the cut slices pair up by commitment, NO commitment remains on both sides, neither remaining side holds a duplicate; it fails ONLY when a duplicate remains after the cut. "
     "transaction::aggregate returns a transaction whose kernels are exactly the concatenation of the operands' kernels, whose offset is the sum of their offsets and whose inputs/outputs are the cut_through result of the concatenated "
     "inputs/outputs (the union minus exactly the matched spend pairs). Order/grouping independence follows from these multiset-level postconditions only up to the sort done by Transaction::new (assumed a permutation). "
-    "Compact blocks (Verus, verbatim functions): CompactBlock::from(block) keeps the header and carries in full exactly the coinbase outputs and coinbase kernels and, for every other kernel, exactly its short id under (header hash, nonce); Block::hydrate_from(cb, txs) keeps the header and yields, as multisets, the cut-through remainder of the transactions plus cb's full outputs / kernels; a proved lemma composes the two into the round trip (same header, same multisets of inputs, outputs, kernels) for transactions that account for exactly the block's non-coinbase part. deaggregate, validity of the aggregate (needs the group equation of C01 plus libsecp256k1), the canonical sort order (so 'identical block' is decided only up to the order fixed by sort_unstable), the selection of transactions by short id (SipHash) and Block::from_reward are not decided.",
+    "Compact blocks (Verus, verbatim functions): CompactBlock::from(block) keeps the header and carries in full exactly the coinbase outputs and coinbase kernels and, for every other kernel, exactly its short id under (header hash, nonce); Block::hydrate_from(cb, txs) keeps the header and yields, as multisets, the cut-through remainder of the transactions plus cb's full outputs / kernels; a proved lemma composes the two into the round trip (same header, same multisets of inputs, outputs, kernels) for transactions that account for exactly the block's non-coinbase part. transaction::deaggregate (three filtering loops verbatim, the real aggregate included): the result's inputs / outputs / kernels are exactly the elements of the multi-kernel transaction that do not occur -- as whole elements, not merely by commitment or excess -- in the aggregate of the known transactions, each once, and its offset is the difference of the two offsets (the offset pipeline itself is an assumed helper). Validity of the aggregate (needs the group equation of C01 plus libsecp256k1), the canonical sort order (so 'identical block' is decided only up to the order fixed by sort_unstable), the selection of transactions by short id (SipHash) and Block::from_reward are not decided.",
     VERUS_TB + "slice::swap via assume_specification (documented behaviour), sort/dedup helpers assumed as stated in the unit header; elements are abstract with a ghost commitment key.",
     "Verus contracts with a merge-state invariant and multiset lemmas on the extracted real functions", "6 C12")
 CLAIMS["C13"] = ('Proof-level (Verus, extracted text): with the feature on, an NRD kernel is refused iff the same excess has an index entry fewer than relative_height blocks below the block being applied, an accepted one is recorded, other variants are untouched (txhashset::apply_kernel_rules); NRDRelativeHeight accepts exactly 1..=10080 (Kani, all u64, in the C10 unit). Block::verify_kernel_lock_heights returns Ok iff no height-locked kernel has lock_height > block height, for any number of kernels (Verus loop invariant); BOUNDED stand-in (<= 3 kernels, Kani): NRD kernels need the flag and header version >= 4, body lock_height == max. Pool side: Chain::verify_tx_lock_height admits a transaction iff its lock height is at most head height + 1. UTXOView::verify_coinbase_maturity refuses a spend unless the height is at least the maturity and the highest-position coinbase being spent lies within the output MMR size of the header `maturity` blocks below (the two iterator chains feeding it are assumed helpers). Per-fork maintenance of the NRD index during rewind and the pool path are not decided.',
